@@ -21,4 +21,5 @@ import EmuVerif.Props.C30Frechet
 #print axioms EmuVerif.Props.C30Frechet.dS_is_top_right_block
 #print axioms EmuVerif.Props.C30Frechet.lanczos_raises_only_recursion
 #print axioms EmuVerif.Props.C30Frechet.lanczos_returns_square_T
+#print axioms EmuVerif.Props.C30Frechet.lanczos_iteration_is_krylov_exp_iteration
 #print axioms EmuVerif.Props.C30Frechet.model_dS_is_expBlock
